@@ -156,7 +156,12 @@ func VerifC09Replies() {
 	author := ""
 	authorOK := true
 	postID := `"id":"` + c09A + `/post?n=1",`
-	switch verifrt.Choice("author", 5) {
+	switch verifrt.Choice("author", 7) {
+	case 5: // a list: an author that fails to load, then one from another host
+		author = `"attributedTo":["` + c09A + `/gone","` + c09B + `/actor2"],`
+		authorOK = false
+	case 6: // a list: a local author, a failing one, a local one - nothing foreign
+		author = `"attributedTo":["` + c09A + `/other","` + c09A + `/gone","` + c09A + `/other"],`
 	case 3: // a post without an id cannot vouch for an author that has one
 		postID = ""
 		author = `"attributedTo":"` + c09A + `/other",`
